@@ -29,6 +29,7 @@ type signerSpec struct {
 	SkipCerts     bool   // SignerInfoConfig.SkipCertificates; the certificate is added later with AddCertificate
 	ExtraSigned   int    // number of extra authenticated attributes
 	ExtraUnsigned int    // number of extra unauthenticated attributes
+	AttrPad       int    `json:",omitempty"` // > 0: one more authenticated attribute, an OCTET STRING of that many bytes (pushes the SET OF over 127/255/65535 bytes)
 	EncAlg        string // SignWithoutAttr only: SetEncryptionAlgorithm value ("" = derived from the key): rsa | rsa-with-digest | ecdsa-with-digest | curve-oid | sm2
 }
 
@@ -208,6 +209,10 @@ func buildSigned(s sdSpec) (*built, error) {
 		cfg := pkcs7.SignerInfoConfig{SkipCertificates: g.SkipCerts}
 		for k := 0; k < g.ExtraSigned; k++ {
 			cfg.ExtraSignedAttributes = append(cfg.ExtraSignedAttributes, extraAttr(true, k))
+		}
+		if g.AttrPad > 0 {
+			oid := append(append(asn1.ObjectIdentifier{}, extraAttrBase...), 1, 99)
+			cfg.ExtraSignedAttributes = append(cfg.ExtraSignedAttributes, pkcs7.Attribute{Type: oid, Value: gen.Fill(gen.Mix(s.Seed, 0xa77, uint64(i)), g.AttrPad)})
 		}
 		for k := 0; k < g.ExtraUnsigned; k++ {
 			cfg.ExtraUnsignedAttributes = append(cfg.ExtraUnsignedAttributes, extraAttr(false, k))
@@ -567,8 +572,20 @@ func checkSignedCompleteInner(s sdSpec, r recLike, deepSM2 bool) error {
 			if findAttr(sv.attrs, oidSigningTimeAttr) == nil {
 				return fmt.Errorf("signer %d: no signingTime attribute: %s", i, desc())
 			}
-			if n := len(sv.attrs.children); n != 3+g.ExtraSigned {
-				return fmt.Errorf("signer %d: %d authenticated attributes, want %d: %s", i, n, 3+g.ExtraSigned, desc())
+			wantAttrs := 3 + g.ExtraSigned
+			if g.AttrPad > 0 {
+				wantAttrs++
+			}
+			if n := len(sv.attrs.children); n != wantAttrs {
+				return fmt.Errorf("signer %d: %d authenticated attributes, want %d: %s", i, n, wantAttrs, desc())
+			}
+			switch n := len(si.Attrs); {
+			case n >= 65536:
+				r.Label("attr-set>=65536")
+			case n >= 256:
+				r.Label("attr-set:256..65535")
+			case n >= 128:
+				r.Label("attr-set:128..255")
 			}
 			signed, prehashed = si.Attrs, false
 		}
